@@ -368,7 +368,7 @@ class OutCtx:
         for k, n in (extra_scal or {}).items():
             self.scal_name[k] = n
         self.norm_args = []          # (coq text of the argument, the SymPy argument)
-        self.abs_args = []           # coq text of every Rabs argument
+        self.abs_args = []           # (coq text of the argument, the SymPy argument) of every Abs
 
     def kind(self, e) -> str:
         from symplyphysics.core.experimental import vectors as V  # pylint: disable=import-outside-toplevel
@@ -392,9 +392,13 @@ class OutCtx:
 
 
 def _pow_text(base: str, n: int) -> str:
+    """b^n as a product of squares (so that `norm v * norm v` is a subterm and can be rewritten to v.v)"""
     if n == 0:
         return "1"
-    return "(" + " * ".join([base] * n) + ")"
+    if n == 1:
+        return base
+    parts = [f"({base} * {base})"] * (n // 2) + ([base] if n % 2 else [])
+    return "(" + " * ".join(parts) + ")"
 
 
 def coq_of_sympy(e, c: OutCtx, want: str) -> str:
@@ -460,7 +464,7 @@ def coq_of_sympy(e, c: OutCtx, want: str) -> str:
         raise Unsupported(f"power {e}")
     if isinstance(e, sympy.Abs):
         a = coq_of_sympy(e.args[0], c, "s")
-        c.abs_args.append(a)
+        c.abs_args.append((a, e.args[0]))
         return f"(Rabs {a})"
     if isinstance(e, V.VectorDot):
         return f"(dot {coq_of_sympy(e.args[0], c, 'v')} {coq_of_sympy(e.args[1], c, 'v')})"
